@@ -1,7 +1,9 @@
 import CJ.Drv.Loop
 import CJ.Drv.Derive
+import CJ.Drv.ClientSession
 /-! Driver for C01: the whole derivation (keys, phantom, port, identifiers) on both sides, and the
-Lean SHA-256 / HMAC / HKDF on their own. -/
+Lean SHA-256 / HMAC / HKDF on their own; the client transports as state machines (`chist`) and the
+station's ingest of a wrapper that carries a registration response (`ingest`). -/
 open CJ.Drv
 
 def main : IO Unit := runDriver fun
@@ -11,4 +13,6 @@ def main : IO Unit := runDriver fun
   | "hkdf" :: args => Derive.handleHkdf args
   | "dtlshello" :: args => Derive.handleDtlsHello args
   | "dtlscred" :: args => Derive.handleDtlsCred args
+  | "chist" :: args => ClientSession.handleHist args
+  | "ingest" :: args => ClientSession.handleIngest args
   | _ => none
